@@ -115,8 +115,40 @@ def iteration(index, rep):
                 return (ratio, Opaque("description"), Opaque("interpreted"))
             if d == "self.fill_data_for_map":
                 rec["map"] = [canon(x) for x in a]
+                helper = index.func(RMNT, "ScenarioRunnerNoTrade.fill_data_for_map")
+                if any(isinstance(r_, ast.Return) and r_.value is not None for r_ in ast.walk(helper)):
+                    # the helper hands a value back (the loop may use it): followed; what it does to the map object is not modelled
+                    prev_hook = interp.call_hook
+
+                    def map_hook(i2, d2, a2, kw2, n2):
+                        if d2 == "len" and len(a2) == 1 and isinstance(a2[0], Opaque):
+                            return i2.fork("map-has-one-row-for-the-country") and Rat.const(1) or (Rat.const(0) if i2.fork("map-has-no-row-for-the-country") else Rat.const(2))
+                        return prev_hook(i2, d2, a2, kw2, n2)
+
+                    interp.call_hook = map_hook
+                    orig_assign, orig_getitem = interp.assign, interp.getitem
+
+                    def assign2(tgt, val, env_):
+                        if isinstance(tgt, ast.Subscript) and isinstance(interp.eval(tgt.value, env_), Opaque):
+                            return None       # a store into the map
+                        return orig_assign(tgt, val, env_)
+
+                    def getitem2(obj_, key_, n_):
+                        if isinstance(obj_, Opaque):
+                            return Opaque(obj_.name + "[]")
+                        return orig_getitem(obj_, key_, n_)
+
+                    interp.assign, interp.getitem = assign2, getitem2
+                    try:
+                        return interp.call_function(helper, [Opaque("world")] + list(a[1:]), dict(kw), Obj(cls, {}, "self"), node)
+                    finally:
+                        interp.call_hook = prev_hook
+                        interp.assign, interp.getitem = orig_assign, orig_getitem
                 return None
             if d in ("print",):
+                return None
+            if d in ("self.save_all_results_to_csv", "self.save_results_to_csv"):
+                rec.setdefault("saved", []).append([canon(x) for x in a])     # writing files does not change what is returned
                 return None
             return NotImplemented
 
